@@ -202,9 +202,9 @@ Definition agrees (c : case) : bool :=
 (* map keys are data: every key of a decoded map occurs literally as a key of the document *)
 Fixpoint doc_allkeys (d : doc) : list string :=
   match d with
-  | DList l => (fix go (l : docs) : list string := match l with DLnil => [] | DLcons x r => doc_allkeys x ++ go r end) l
+  | DList l => (fix go (l : docs) : list string := match l with DLnil => [] | DLcons x r => (doc_allkeys x ++ go r)%list end) l
   | DMap m => (fix go (m : dmap) : list string :=
-                 match m with DMnil => [] | DMcons k x r => k :: doc_allkeys x ++ go r end) m
+                 match m with DMnil => [] | DMcons k x r => (k :: doc_allkeys x ++ go r)%list end) m
   | _ => []
   end.
 
